@@ -7,8 +7,10 @@
 
   Each clause of the property is a `def … : Prop` parameterised by the extracted switches, with
     * a characterisation `…_iff` valid for EVERY value of the switches (what exactly the code must do),
-    * for the switches of the current tree either the clause itself or — where the current code violates it —
-      its negation `…_current_false` with a concrete witness, and a `…_partial` theorem for the part that holds.
+    * the clause itself, at full strength, for the switches of the current tree (`…_current`, re-decided against the regenerated
+      `Gen.C10.cfg` on every run: a regression of one of the three repairs flips a switch and the theorem stops compiling),
+    * theorems about the model with the switch values of the tree BEFORE the repairs de81dee / 5667fce / c3c4fba (`oldCfg`, `…_old_*`,
+      `…_unguarded`): the witnesses that show why each switch value is forced.
 -/
 import HitenModel.Gen.C10
 import HitenModel.Lemmas.C10
@@ -88,27 +90,40 @@ theorem backwardIsFlow_iff (c : ℝ) : BackwardIsFlowAtNegTime c ↔ c = -1 := b
     exact Flow.backward_eq_flow_neg hL hx hxU (fun s => by simpa using hy s) hyU h0 s
 
 
-/-- current tree: the wrapper passes `t` unchanged (`Gen.cfg.dirTimeCoef = 1`), so the clause FAILS for time-dependent
-    fields.  (After the repair `_base_rhs(_fwd * t, y)` this theorem stops compiling and `backwardIsFlow_iff` gives the clause.) -/
-theorem backwardIsFlow_current_false : ¬ BackwardIsFlowAtNegTime (cfg.dirTimeCoef : ℝ) := by
+/-- the switches of the tree before the repairs (kept to document, in the model, why each repaired value is forced) -/
+def oldCfg : Cfg where
+  dirTimeCoef := 1
+  symGridSign := -1
+  symTimesSign := -1
+  guard45 := false
+  guard853 := false
+  guardEvent45 := false
+  guardEvent853 := false
+
+/-- **Clause 1, current tree, full strength**: the wrapper evaluates the base field at `_fwd * t` (`Gen.cfg.dirTimeCoef = -1`, traced),
+    so backward propagation for a duration `s` is the flow at `-s` for EVERY field, time-dependent ones included. -/
+theorem backwardIsFlow_current : BackwardIsFlowAtNegTime (cfg.dirTimeCoef : ℝ) := by
+  rw [backwardIsFlow_iff]; norm_num [cfg]
+
+/-- before c3c4fba the wrapper passed `t` unchanged: the clause failed … -/
+theorem backwardIsFlow_old_false : ¬ BackwardIsFlowAtNegTime (oldCfg.dirTimeCoef : ℝ) := by
   rw [backwardIsFlow_iff]
-  norm_num [cfg]
+  norm_num [oldCfg]
 
-
-/-- the witness, spelled out: field `f(t,u) = t`, start 0.  Flow: `x(t) = t²/2`, so the state at time −1 is `+1/2`;
-    the backward system the code integrates (`z' = -f(c s, z)`, `c = cfg.dirTimeCoef`) has the solution `-c s²/2`, i.e. `-1/2` at `s = 1`. -/
+/-- … with this witness: field `f(t,u) = t`, start 0.  Flow: `x(t) = t²/2`, so the state at time −1 is `+1/2`;
+    the backward system with the unreversed time argument (`z' = -f(c s, z)`, `c = 1`) has the solution `-s²/2`, i.e. `-1/2` at `s = 1`. -/
 theorem directed_nonautonomous_counterexample :
-    let c : ℝ := (cfg.dirTimeCoef : ℝ)
+    let c : ℝ := (oldCfg.dirTimeCoef : ℝ)
     let x : ℝ → ℝ := fun t => t ^ 2 / 2
     let y : ℝ → ℝ := fun s => -(c * s ^ 2 / 2)
     (∀ t, HasDerivAt x t t) ∧ (∀ s, HasDerivAt y (-(c * s)) s) ∧ y 0 = x 0 ∧ y 1 = -1 / 2 ∧ x (-1) = 1 / 2 := by
-  obtain ⟨hx, hy⟩ := Flow.counterexample_solutions (cfg.dirTimeCoef : ℝ)
-  refine ⟨hx, hy, by simp, ?_, ?_⟩ <;> norm_num [cfg]
+  obtain ⟨hx, hy⟩ := Flow.counterexample_solutions (oldCfg.dirTimeCoef : ℝ)
+  refine ⟨hx, hy, by simp, ?_, ?_⟩ <;> norm_num [oldCfg]
 
 
-/-- **partial**: for AUTONOMOUS fields (CR3BP, variational equations, polynomial Hamiltonians — everything the library itself
-    propagates) the clause holds whatever time coefficient the wrapper uses.  Missing: time-dependent user fields. -/
-theorem backwardIsFlow_autonomous_partial (c : ℝ) (E : Type) [NormedAddCommGroup E] [NormedSpace ℝ E] (g : E → E) (U : Set E)
+/-- for AUTONOMOUS fields (CR3BP, variational equations, polynomial Hamiltonians — everything the library itself propagates)
+    the clause holds whatever time coefficient the wrapper uses (which is why the old defect was invisible to the library's own systems) -/
+theorem backwardIsFlow_autonomous (c : ℝ) (E : Type) [NormedAddCommGroup E] [NormedSpace ℝ E] (g : E → E) (U : Set E)
     (K : NNReal) (hL : LipschitzOnWith K g U) (x y : ℝ → E) (hx : ∀ t, HasDerivAt x (g (x t)) t) (hxU : ∀ t, x t ∈ U)
     (hy : ∀ s, HasDerivAt y (-((fun (_ : ℝ) u => g u) (c * s) (y s))) s) (hyU : ∀ s, y s ∈ U) (h0 : y 0 = x 0) (s : ℝ) :
     y s = x (-s) :=
@@ -307,20 +322,29 @@ theorem dop853_descending_iff (cfg : Cfg) : DescendingCorrectOrRejected cfg .dop
     exact Or.inl ⟨_, ho.symm⟩
 
 
-/-- current tree: no guard, so DOP853 VIOLATES the clause … -/
-theorem dop853_descending_current_false : ¬ DescendingCorrectOrRejected cfg .dop853 := by
+/-- **Clause 3, current tree, full strength**: `_DOP853.integrate` guards (`Gen.cfg.guard853 = true`, observed on the real entry code),
+    so on every strictly decreasing grid it rejects; together with `rk45_descending_rejected`, `fixed_monotone_faithful` and
+    `symplectic_monotone_faithful` every low-level integrator integrates a decreasing grid correctly or rejects it. -/
+theorem dop853_descending_current : DescendingCorrectOrRejected cfg .dop853 := by
   rw [dop853_descending_iff]; decide
 
+/-- the adaptive classes of the current tree reject decreasing grids with the graceful `ValueError` (not the ZeroDivisionError) -/
+theorem adaptive_descending_current_rejected (k : Kind) (close : Int → Int → Bool) (c : Ctl) (orc : List (Bool × Int)) (ts : List Int)
+    (hl : 2 ≤ ts.length) (hd : Desc ts) (hc : close (ts.headD 0) (ts.getLastD 0) = false) :
+    integrateAdaptive cfg k close c orc ts = .error .descendingRejected := by
+  rw [integrateAdaptive_descending cfg k close c orc ts hl hd hc]
+  cases k <;> simp [guardOf, cfg]
 
-/-- … and this is what it returns instead: for EVERY strictly decreasing grid, every controller and every vector field the
-    step loop is skipped and every requested time gets the initial state (`y_out[idx] = ys_arr[-1]`), with no error. -/
-theorem dop853_descending_returns_constant {S : Type} (close : Int → Int → Bool) (c : Ctl) (orc : List (Bool × Int)) (y0 : S)
-    (nodeState : Nat → S) (dense : Nat → Int → Int → S) (ts : List Int) (hl : 2 ≤ ts.length) (hd : Desc ts)
-    (hc : close (ts.headD 0) (ts.getLastD 0) = false) (h0 : nodeState 0 = y0) :
+/-- why the guard is needed: WITHOUT it (any configuration with `guard853 = false`, e.g. the tree before de81dee), for EVERY strictly
+    decreasing grid, every controller and every vector field the step loop is skipped and every requested time gets the initial
+    state (`y_out[idx] = ys_arr[-1]`), with no error. -/
+theorem dop853_descending_unguarded_returns_constant {S : Type} (cfg : Cfg) (hg : cfg.guard853 = false) (close : Int → Int → Bool) (c : Ctl)
+    (orc : List (Bool × Int)) (y0 : S) (nodeState : Nat → S) (dense : Nat → Int → Int → S) (ts : List Int) (hl : 2 ≤ ts.length)
+    (hd : Desc ts) (hc : close (ts.headD 0) (ts.getLastD 0) = false) (h0 : nodeState 0 = y0) :
     toOutcome y0 nodeState dense ts (integrateAdaptive cfg .dop853 close c orc ts) =
       some (.sol ⟨ts, List.replicate ts.length y0⟩) := by
   rw [integrateAdaptive_descending cfg .dop853 close c orc ts hl hd hc]
-  have : guardOf cfg .dop853 = false := by decide
+  have : guardOf cfg .dop853 = false := by simpa [guardOf] using hg
   simp only [this, toOutcome, Bool.false_eq_true, if_false, List.map_map, Option.some.injEq, Outcome.sol.injEq, Sol.mk.injEq, true_and]
   rw [List.eq_replicate_iff]
   constructor
@@ -330,11 +354,13 @@ theorem dop853_descending_returns_constant {S : Type} (close : Int → Int → B
     obtain ⟨_, _, rfl⟩ := hb
     simpa [sampleState] using h0
 
+theorem dop853_descending_old_false : ¬ DescendingCorrectOrRejected oldCfg .dop853 := by
+  rw [dop853_descending_iff]; decide
 
-/-- concrete witness (the probe of DESIGN §6 row 9 in ticks): flow `y ↦ y + τ`, grid `[0,-1,-2]` -/
-theorem dop853_descending_witness :
+/-- concrete witness for the old switches (the probe of DESIGN §6 row 9 in ticks): flow `y ↦ y + τ`, grid `[0,-1,-2]` -/
+theorem dop853_descending_old_witness :
     toOutcome (0 : Int) (fun _ => 0) (fun _ _ _ => 0) [0, -1, -2]
-      (integrateAdaptive cfg .dop853 (fun _ _ => false) ⟨1000, 1, 1⟩ [] [0, -1, -2]) = some (.sol ⟨[0, -1, -2], [0, 0, 0]⟩) ∧
+      (integrateAdaptive oldCfg .dop853 (fun _ _ => false) ⟨1000, 1, 1⟩ [] [0, -1, -2]) = some (.sol ⟨[0, -1, -2], [0, 0, 0]⟩) ∧
     ¬ Faithful (fun (τ : Int) (y : Int) => y + τ) 0 ⟨[0, -1, -2], [0, 0, 0]⟩ := by
   constructor
   · decide
@@ -399,14 +425,19 @@ theorem event_descending_iff (cfg : Cfg) (k : Kind) : EventDescendingCorrectOrRe
     exact Or.inl ⟨_, ho.symm⟩
 
 
-/-- current tree: neither event driver guards; both return `([t0, tmax], [y0, y0])` ("end state" = initial state) -/
-theorem event_descending_current_false :
-    ¬ EventDescendingCorrectOrRejected cfg .rk45 ∧ ¬ EventDescendingCorrectOrRejected cfg .dop853 := by
+/-- **Clause 3 for the event-enabled paths, current tree, full strength**: both event drivers are guarded (`tmax < t0` is rejected) -/
+theorem event_descending_current :
+    EventDescendingCorrectOrRejected cfg .rk45 ∧ EventDescendingCorrectOrRejected cfg .dop853 := by
+  constructor <;> (rw [event_descending_iff]; decide)
+
+/-- before de81dee neither event driver guarded; both returned `([t0, tmax], [y0, y0])` ("end state" = initial state) -/
+theorem event_descending_old_false :
+    ¬ EventDescendingCorrectOrRejected oldCfg .rk45 ∧ ¬ EventDescendingCorrectOrRejected oldCfg .dop853 := by
   constructor <;> (rw [event_descending_iff]; decide)
 
 
-theorem event_descending_witness (k : Kind) :
-    integrateAdaptiveEventNoHit cfg k (fun _ _ => false) ⟨1000, 1, 1⟩ [] [0, -2] = .noHit 0 (-2) 0 := by
+theorem event_descending_old_witness (k : Kind) :
+    integrateAdaptiveEventNoHit oldCfg k (fun _ _ => false) ⟨1000, 1, 1⟩ [] [0, -2] = .noHit 0 (-2) 0 := by
   cases k <;> decide
 
 
@@ -493,8 +524,12 @@ theorem symplecticTimes_iff (cfg : Cfg) : SymplecticTimesAsRequested cfg ↔ cfg
       · simp
 
 
-/-- current tree: `times_out = t_vals * fwd` — with a backward-directed system the returned times are `-t_vals` -/
-theorem symplecticTimes_current_false : ¬ SymplecticTimesAsRequested cfg := by
+/-- **Clause 4 for the symplectic integrator, current tree, full strength** (`times_out = t_vals.copy()`) -/
+theorem symplecticTimes_current : SymplecticTimesAsRequested cfg := by
+  rw [symplecticTimes_iff]; decide
+
+/-- before 5667fce: `times_out = t_vals * fwd` — with a backward-directed system the returned times were `-t_vals` -/
+theorem symplecticTimes_old_false : ¬ SymplecticTimesAsRequested oldCfg := by
   rw [symplecticTimes_iff]; decide
 
 
@@ -519,8 +554,8 @@ def StampsConsistent (cfg : Cfg) : Prop :=
     propagate close integ m forward flip y0 t0 d n = .sol s → s.times = (linspace t0 d n).map (fun t => forward * t)
 
 
-/-- fixed-step and adaptive methods: always (this is the `_partial` part of clause 2; missing: `method="symplectic"`) -/
-theorem stamps_consistent_partial (cfg : Cfg) {S : Type} (close : Int → Int → Bool) (integ : Method → Call → Outcome S) (m : Method)
+/-- fixed-step and adaptive methods: always; symplectic: when the integrator does not re-sign its times (used by `stampsConsistent_iff`) -/
+theorem stamps_consistent_of (cfg : Cfg) {S : Type} (close : Int → Int → Bool) (integ : Method → Call → Outcome S) (m : Method)
     (hm : m ≠ .symplectic ∨ cfg.symTimesSign = 1) (forward : Int) (flip : Option (List Nat)) (y0 : S) (t0 d : Int) (n : Nat) (s : Sol S)
     (hI : ∀ call, LibInteg cfg close y0 m call (integ m call))
     (h : propagate close integ m forward flip y0 t0 d n = .sol s) : s.times = (linspace t0 d n).map (fun t => forward * t) := by
@@ -563,19 +598,29 @@ theorem stampsConsistent_iff (cfg : Cfg) : StampsConsistent cfg ↔ cfg.symTimes
     simp [linspace, List.range_succ] at key
     omega
   · intro hσ S close integ m forward flip y0 t0 d n s _ hI h
-    exact stamps_consistent_partial cfg close integ m (Or.inr hσ) forward flip y0 t0 d n s hI h
+    exact stamps_consistent_of cfg close integ m (Or.inr hσ) forward flip y0 t0 d n s hI h
 
 
-/-- current tree: `_ExtendedSymplectic.integrate` returns `t_vals * fwd` and `_propagate_dynsys` multiplies by `forward` again -/
-theorem stampsConsistent_current_false : ¬ StampsConsistent cfg := by
+/-- **Clause 2, current tree, full strength**: for direction ±1 and ALL THREE methods the stamps returned by `_propagate_dynsys` are
+    `forward · linspace(t0, tf, steps)` — hence non-positive and strictly decreasing for `forward = -1` (next theorem). -/
+theorem stampsConsistent_current : StampsConsistent cfg := by
   rw [stampsConsistent_iff]; decide
 
+/-- before 5667fce `_ExtendedSymplectic.integrate` returned `t_vals * fwd` and `_propagate_dynsys` multiplied by `forward` again -/
+theorem stampsConsistent_old_false : ¬ StampsConsistent oldCfg := by
+  rw [stampsConsistent_iff]; decide
 
-/-- the witness: `method="symplectic"`, `forward=-1`, `t0=0`, three samples one tick apart: stamps `0, +1, +2`
-    (for the flow at `0, -1, -2`, see `symplectic_backward_states`) -/
-theorem stamps_symplectic_witness :
-    propagate (S := Unit) (fun _ _ => false) (fun _ call => integrateSymplectic cfg (fun _ y => y) call.fwd () call.grid)
+/-- the old witness: `method="symplectic"`, `forward=-1`, `t0=0`, three samples one tick apart: stamps `0, +1, +2`
+    (for the flow at `0, -1, -2`, see `symplectic_backward_states`) … -/
+theorem stamps_symplectic_old_witness :
+    propagate (S := Unit) (fun _ _ => false) (fun _ call => integrateSymplectic oldCfg (fun _ y => y) call.fwd () call.grid)
       .symplectic (-1) none () 0 1 3 = .sol ⟨[0, 1, 2], [(), (), ()]⟩ := by
+  decide
+
+/-- … and the same call on the current tree: stamps `0, -1, -2` -/
+theorem stamps_symplectic_current_example :
+    propagate (S := Unit) (fun _ _ => false) (fun _ call => integrateSymplectic cfg (fun _ y => y) call.fwd () call.grid)
+      .symplectic (-1) none () 0 1 3 = .sol ⟨[0, -1, -2], [(), (), ()]⟩ := by
   decide
 
 
